@@ -7,14 +7,34 @@
       5  merge end to end, repeated under different GOMAXPROCS / yields      -> (0) = all runs agree
       6  regression: store Get failing during a merge (errChan capacity)     -> (1) = error returned
       7  ingest as kind 0 with varying-length keys in the second column      -> Pool.run_ingest
-      8  diff / merge with real progress ticks, watchdog on Stop/Error/Close -> (0) = returned, nothing left *)
+      8  diff / merge with real progress ticks, watchdog on Stop/Error/Close -> (0) = returned, nothing left
+      9  `wrgl commit` with the k-th block write failing, k = 0..nblocks     -> run_commit: pool model + bar model
+     10  `wrgl diff NEW.csv OLD.csv -n N` on raw files                       -> (0 added removed modified) *)
 From W.lib Require Import Tree.
-From W.model Require Import Pool PoolFlow.
+From W.model Require Import Pool PoolFlow PoolTracker.
+
+(* (9 requestedWorkers nblocks bars): outcome of the command for every failing block position.
+   The pool model (effective workers = requested - 2, at least 1; block k-1 fails in SaveBlock)
+   gives the ingest outcome, the bar model what the command's caller sees. *)
+Definition run_commit (c : tree) : tree :=
+  let req := d_nat (d_nth 1 c) in
+  let n := d_nat (d_nth 2 c) in
+  let bars := d_bool (d_nth 3 c) in
+  let w := Nat.max 1 (req - 2) in
+  let rows := Node (map (fun _ => Leaf 255) (seq 0 n)) in
+  let one (k : nat) : tree :=
+    let ic := Node [Leaf 0; t_nat w; rows; Node []; Leaf 1;
+                    t_nat (k - 1); Leaf (if Nat.eqb k 0 then 0 else 1); Leaf 0] in
+    let o := match d_N (d_nth 0 (run_ingest ic)) with 0%N => IOk | _ => IErr k end in
+    match command_result bars true o with Some r => Leaf r | None => Leaf 3 end in
+  Node (map one (seq 0 (S n))).
 
 Definition run_C16 (c : tree) : tree :=
   match d_nat (d_nth 0 c) with
   | 0%nat | 7%nat => run_ingest c
   | 2%nat => run_flow c
   | 3%nat | 4%nat | 6%nat => Node [Leaf 1]
+  | 9%nat => run_commit c
+  | 10%nat => Node [Leaf 0; d_nth 3 c; d_nth 4 c; d_nth 5 c]
   | _ => Node [Leaf 0]
   end.
